@@ -17,17 +17,20 @@
   export mds   `MDSDRV_Converter(song).get_mds().to_bytes()`      `MdsFile.exportMds` (C09) = `MdsData` tables
                                                                   (C11) + `Wave` (C14) + `MdsConv` writer (C02/C03)
                                                                   + `MdsCodec` + `Riff` (C13)
-  export vgm   `Platform::vgm_export`: `MD_Driver::play_song`     `MdsFile.readSong` for the part that reads the
-               (= `MDSDRV_Data::read_song`, then the player),     definitions; the play loop (MD_Driver with PCM,
-               `play_step` loop, `VGM_Writer`                     FM3, macro tracks, pitch envelopes) is NOT
-                                                                  modelled as a whole → `Residual.vgmPlay`
-  link         `MDSDRV_Linker::add_song`, `get_seq_data`,         C10's model takes hand-made containers; here the
-               `get_pcm_data`, `get_statistics`, headers          stage is `Residual.link`
+  export vgm   `Platform::vgm_export`: `MD_Driver::play_song`     `MdsFile.readSong` for the definitions, then
+               (= `MDSDRV_Data::read_song`, then the player),     `MdDriver.exportSong` (C07/C08: play loop, PCM in
+               `play_step` loop, `VGM_Writer`                     `pcm_mode` 0, `VGM_Writer`, GD3 tags) for the
+                                                                  songs of its subset; outside it (platform commands,
+                                                                  portamento, pitch envelopes, macro tracks, an
+                                                                  export that reaches `max_seconds`) →
+                                                                  `Residual.vgmPlay`
+  link         `MDSDRV_Linker::add_song`, `get_seq_data`,         `Linker.runOps [add "in" file]` on the exported
+               `get_pcm_data`, `get_statistics`, headers          container (C10), then `getSeqData`, `getPcmData`,
+                                                                  `statistics`, `asmHeader`, `cHeader`
 
   What has no model is a field of `Residual` (a PARAMETER of the pipeline, a HYPOTHESIS of the
   theorems in Properties/C15):
-    * `vgmPlay`  — the VGM play loop after `read_song` succeeded;
-    * `link`     — mdslink's calls on the container the converter produced;
+    * `vgmPlay`  — the VGM play loop for a song outside the subset of Model/MdDriver;
     * `mdsGap`   — inputs the C09/C11 models do not cover (`FErr.dataUnsupported`: an instrument
                    definition outside Model/MdsData's grammar; a platform command outside
                    Model/MdsPlatform, i.e. the register-name commands `tl1 …`);
@@ -37,14 +40,18 @@
   Classification of the model errors (what the C++ does at that point):
     input error  `Lexer.Err.input`; every `Player.PErr` raised through `Basic_Player::error`;
                  `OptResult.validated = false` (the `Song_Validator` inside `optimize` threw);
-                 `Opt.OErr.missingTrack` (after fix 0e6e685 a drum routine that does not exist is an
-                 `InputError`; a missing JUMP target cannot reach the optimiser, the validator
-                 rejects it first); `FErr.data`, `FErr.writer` (except its fuel), `FErr.indexRange`,
+                 `Opt.OErr.missingDrum` (after fix 0e6e685 a drum routine that does not exist is an
+                 `InputError`); `FErr.data`, `FErr.writer` (except its fuel), `FErr.indexRange`,
                  `FErr.seqTooLarge`
     foreign      `Lexer.Err.foreign` (another exception type or an undefined-behaviour site of the
                  reader), `PErr.impossible` (`vector::at`), `PErr.fuel`/`OErr.fuel`/`WErr.fuel`
-                 (a loop that does not end), `OErr.stackListOOB`, `FErr.codec` (`at()` on an empty
-                 stream, `top()` of an empty stack), `FErr.headerWrap`, `FErr.bankIndex`, `FErr.riff`
+                 (a loop that does not end), `OErr.stackListOOB`, `OErr.missingTrack`
+                 (`std::out_of_range` from `Song::get_track`; unreachable after validation:
+                 `optimizeStage_routed`), `FErr.codec .atEmpty` (`at()` on an empty
+                 stream; never produced), `FErr.bankIndex`, `FErr.riff`, `Linker.Err.outOfRange`/
+                 `invalidArgument` (std exceptions that escape `add_song`) / `oob`/`hang`/`divZero`,
+                 `MdDriver.DErr.oob` (`vector::at` in the PSG envelope stepper / sample lookup),
+                 `nonInteger`, `vgm` (a `VGM_Writer` fault)
 
   Not modelled here and named in the evidence: the file system (the MML text and the side files
   are given as byte strings; `include_path` only decides where a side file is looked up), the
@@ -53,6 +60,8 @@
 import Ctrmml.Model.Refs
 import Ctrmml.Model.MdsFile
 import Ctrmml.Model.Optimizer
+import Ctrmml.Model.MdDriver
+import Ctrmml.Model.Linker
 namespace Ctrmml.Pipeline
 open Ctrmml
 
@@ -181,7 +190,7 @@ def optimizeStage (song : Song) (fuel passes : Nat) : Out Song :=
       | .ok _ => .foreign "MODEL:validator-disagrees"
       | .inputError m => .inputError m
       | .foreign k => .foreign k
-  | .error .missingTrack => .inputError "drum mode error: track is not defined"
+  | .error .missingTrack => .foreign "out_of_range"     -- `Song::get_track` on a missing track: nothing catches it
   | .error (.missingDrum _) => .inputError "drum mode error: track is not defined"
   | .error .stackListOOB => .foreign "ub:stack-list-oob"
   | .error .fuel => .foreign "hang"
@@ -190,10 +199,9 @@ def optimizeStage (song : Song) (fuel passes : Nat) : Out Song :=
 
 /-- stages and input classes that have no Lean model in this tree, as parameters -/
 structure Residual where
-  /-- the VGM play loop (`MD_Driver` + `VGM_Writer`) after `read_song` succeeded -/
+  /-- the VGM play loop (`MD_Driver` + `VGM_Writer`) after `read_song` succeeded, for a song outside
+  the subset of Model/MdDriver -/
   vgmPlay : MdsFile.Input → MdsFile.DState → Out Bytes
-  /-- mdslink's calls on the container the converter produced -/
-  link : Bytes → Out Unit
   /-- the mds export of an input outside Model/MdsData / Model/MdsPlatform -/
   mdsGap : MdsFile.Input → Out Bytes
 
@@ -210,8 +218,9 @@ def ferrOut {α : Type} (inp : MdsFile.Input) (gap : MdsFile.Input → Out α) :
   | .writer _ => .inputError "MDSDRV: command rejected by the track writer"
   | .codec .atEmpty => .foreign "out_of_range"
   | .codec .stackEmpty => .inputError "MDSDRV: loop break or loop end without a loop start in the sequence data"
+  | .codec .stackEmpty => .inputError "MDSDRV: loop break or loop end command without a loop start"   -- fix c5dd456
   | .indexRange => .inputError "MDSDRV: index does not fit in a byte"
-  | .headerWrap => .foreign "ub:header-wrap"
+  | .headerWrap => .inputError "MDSDRV: sequence header too large"   -- fix 8d409a9
   | .seqTooLarge => .inputError "MDSDRV: sequence data too large"
   | .bankIndex => .foreign "ub:bank-index"
   | .riff _ => .foreign "riff"
@@ -223,12 +232,98 @@ def exportMdsStage (u : Residual) (inp : MdsFile.Input) (gap : Bool) : Out Bytes
   | .ok o => .ok o.file
   | .error e => ferrOut inp u.mdsGap e
 
-/-- `Platform::vgm_export`: `read_song` (modelled), then the play loop (residual) -/
-def exportVgmStage (u : Residual) (inp : MdsFile.Input) : Out Bytes :=
+/-- the export leaves the converter's models (then `exportMdsStage` is the residual `mdsGap`) -/
+def mdsOutside (inp : MdsFile.Input) (gap : Bool) : Bool :=
+  gap || match MdsFile.exportMds MdsData.Arith.float inp with
+    | .error .dataUnsupported => true
+    | _ => false
+
+/-! ### export vgm: the driver model of C07/C08 -/
+
+/-- is this tag a `pcm` instrument definition `@<id> pcm …` (its id) -/
+def pcmIdOf (kv : String × List String) : Option Nat :=
+  match MdsData.scanKey kv.1 with
+  | some (false, id) =>
+    match kv.2 with
+    | ty :: _ => if MdsData.lower ty == "pcm" then some id else none
+    | [] => none
+  | _ => none
+
+/-- `wave_map`: the index `add_sample` returned for every `pcm` instrument, replayed over the tags in
+`tag_order` on a fresh `wave_rom` (the same calls `MdsFile.readSong` makes; it has succeeded) -/
+def waveMapOf (files : List (String × Bytes)) (tags : List (String × List String)) : Wave.Bank × List (Nat × Nat) :=
+  tags.foldl (fun (acc : Wave.Bank × List (Nat × Nat)) kv =>
+    match pcmIdOf kv with
+    | none => acc
+    | some id =>
+      let args := kv.2.drop 1
+      match Wave.addSampleTag acc.1 (match args with | n :: _ => files.lookup n | [] => none) args with
+      | .error _ => acc
+      | .ok (b, idx) => (b, (id, idx) :: acc.2.filter (·.1 ≠ id))) (Wave.Bank.new Tables.mds_dataWaveRom 0, [])
+
+/-- what `MD_Driver` reads from `MDSDRV_Data` after `read_song` -/
+def driverDataOf (d : MdsFile.DState) (files : List (String × Bytes)) (tags : List (String × List String)) : MdDriver.Data :=
+  let wm := waveMapOf files tags
+  { ins := d.st.tyMap.map fun (id, ty) =>
+      (id, { type := ty.toNat,
+             data := d.st.bank.getD ((MdsData.mget d.st.envMap id).getD 0).toNat [],
+             -- `add_ins_pcm` sets `ins_transpose[id] = 0`
+             transpose := if ty = (Tables.mdsdrv_INS_PCM : Int) then 0 else (MdsData.mget d.st.trMap id).getD 0 }),
+    bank := wm.1, waveMap := wm.2 }
+
+/-- the wall-clock and build strings of `write_tag` (they do not change the outcome class) -/
+def vgmStamps : MdDriver.Stamps :=
+  { clock := "0000-00-00 00:00:00".toUTF8.toList, build := "ctrmml".toUTF8.toList }
+
+/-- the song's tag map as `get_tags` reads it -/
+def tagMapOf (s : Tags.Song) : MdDriver.TagMap :=
+  ((Tags.lookupTag s.tags Tags.orderKey).getD []).map fun k => (strOf k, (Tags.lookupTag s.tags k).getD [])
+
+/-- `Platform::vgm_export`: `read_song`, then `MD_Driver` + `VGM_Writer` (Model/MdDriver); a song
+outside that model's subset goes to the residual -/
+def exportVgmStage (u : Residual) (inp : MdsFile.Input) (tm : MdDriver.TagMap) : Out Bytes :=
   match MdsFile.readSong MdsData.Arith.float inp.files inp.tags with
-  | .ok d => u.vgmPlay inp d
+  | .ok d =>
+    -- Model/MdDriver plays songs without registered platform commands (a `PLATFORM` event is an input
+    -- error there); a parsed song registers every command it uses: outside the subset
+    if inp.song.tracks.any (fun p => p.2.any fun e => e.type == Tables.ev_PLATFORM) then u.vgmPlay inp d else
+    match MdDriver.exportSong (driverDataOf d inp.files inp.tags) inp.song tm vgmStamps with
+    | .ok b => .ok b
+    | .error .input => .inputError "vgm export: input error"
+    | .error .unsupported => u.vgmPlay inp d
+    | .error .tooLong => u.vgmPlay inp d
+    | .error .oob => .foreign "out_of_range"
+    | .error .nonInteger => .foreign "ub:non-integer-delta"
+    | .error (.vgm _) => .foreign "ub:vgm-writer"
   | .error .data => .inputError "instrument or envelope definition rejected"
   | .error _ => u.mdsGap inp
+
+/-! ### link: the linker model of C10 -/
+
+def linkErrOut {α : Type} : Linker.Err → Out α
+  | .notMds => .inputError "mdslink: not an MDS file"
+  | .malformed => .inputError "mdslink: malformed MDS file"
+  | .version => .inputError "mdslink: unsupported sequence version"
+  | .noFit => .inputError "mdslink: sample does not fit"
+  | .tooBig => .inputError "mdslink: data too large"
+  | .outOfRange => .foreign "out_of_range"
+  | .invalidArgument => .foreign "invalid_argument"
+  | .oob => .foreign "ub:out-of-bounds"
+  | .hang => .foreign "hang"
+  | .divZero => .foreign "ub:division-by-zero"
+
+/-- mdslink on one file: `add_song`, `get_seq_data`, `get_pcm_data`, `get_statistics`, the two headers -/
+def linkStage (mds : Bytes) : Out Unit :=
+  match Linker.runOps [.add (Linker.ascii "in") mds] Linker.Linker.new with
+  | .error e => linkErrOut e
+  | .ok l =>
+    match Linker.getSeqData l with
+    | .error e => linkErrOut e
+    | .ok _ =>
+      -- `get_pcm_data` and `get_statistics` are total; the headers end when `unique_string` does
+      match Linker.asmHeader l, Linker.cHeader l with
+      | some _, some _ => .ok ()
+      | _, _ => .foreign "hang"
 
 /-! ### the tools -/
 
@@ -265,12 +360,14 @@ def pipelineS (u : Residual) (files : List (String × Bytes)) (opt : Bool) (fmt 
         let gap := (mdsInputOf st files).2
         match fmt with
         | .mds => (.export, exportMdsStage u inp gap)
-        | .vgm => (.export, exportVgmStage u inp)
+        | .vgm => (.export, exportVgmStage u inp (tagMapOf (Refs.replayTags st.song.tagCalls)))
         | .link =>
+          -- an input outside the converter's models: the residual stands for the rest of the run
+          if mdsOutside inp gap then (.export, u.mdsGap inp) else
           match exportMdsStage u inp gap with
           | .inputError m => (.export, .inputError m)
           | .foreign k => (.export, .foreign k)
-          | .ok mds => (.link, (u.link mds).map fun _ => mds)
+          | .ok mds => (.link, (linkStage mds).map fun _ => mds)
 
 def pipeline (u : Residual) (files : List (String × Bytes)) (opt : Bool) (fmt : Format) (b : Budget)
     (text : List Nat) : Out Bytes :=
